@@ -405,7 +405,7 @@ def scanKV (dn : Bool) (B : Bytes) (n sp : Nat) (B1 : Bytes) (n1 extra : Nat) : 
   let region := trimValue (B1.take nEnd)
   .kv (normalizeKey dn (B.take n))
     (if extra > 0 then
-      (((normValAux false region).dropWhile (· == 32)).reverse.dropWhile isOWS).reverse else region)
+      foldedValue region else region)
     (B1.drop (nEnd + 1)) (n + 1 + sp + nEnd + 1)
 
 def scanValue (dn : Bool) (B : Bytes) (n : Nat) : Scan :=
